@@ -78,6 +78,34 @@ def run(res, tier, seed, replay_case=None):
         return {'outcome': sim.outcome, 'error': sim.error, 'indications': _digest(sim),
                 'wire': b''.join(sim.wire_raw), 'state': sim.state(), 'closed': sim.all_closed()}
 
+    if replay_case is None or replay_case.get('giant'):
+        # the same kind of message as ONE P-DATA-TF PDU of 17 MiB, to an entity that sets no limit
+        # (maximum length 0): whole, in read-buffer sized segments, in odd segments
+        gdata = bytes((i * 137 + (i >> 13)) % 253 for i in range(17 * 1024 * 1024 + 3))
+        gpdvs = R.fragment(F.store_rq_command(9, instance=b'1.2.3.9'), gdata, 1 << 30, 3)
+        giant = R.build_pdu({'type': 4, 'rsv': 0, 'pdvs': gpdvs})
+        want = [('CStoreRQMessage', 3, 9, hashlib.sha256(gdata).hexdigest())]
+        for seg in (None, 65536, 1000003):
+            gblob = giant + b''.join(tail)
+            script = [('bytes', rq), ('user', F.user_primitive('uAC')[0])]
+            script += [('bytes', giant), ('bytes', tail[0]), ('bytes', tail[1])] if seg is None else \
+                [('bytes', gblob[k:k + seg]) for k in range(0, len(gblob), seg)]
+            script += [('user', F.user_primitive('uRELRP')[0]), ('close',)]
+            sim = simnet.Sim('acceptor', script, max_pdu_length=0, budget=2000)
+            sim.run()
+            got = _digest(sim)
+            res.evaluations += 1
+            res.distinct.add('giant|%d|%s' % (len(giant), seg))
+            res.count('oracle.giant-pdu')
+            if sim.outcome != 'end-of-script' or [g for g in got if isinstance(g, tuple) and
+                                                 g[0] == 'CStoreRQMessage'] != want or len(got) != 4:
+                res.violation('valid-pdu-not-delivered:giant-pdu', 'C03.differential',
+                              'one P-DATA-TF PDU of %d bytes (no maximum length set) in segments of %s: outcome %s '
+                              '%s, indications %r' % (len(giant), seg, sim.outcome, sim.error, got[:5]),
+                              {'long': True, 'giant': True, 'segment': seg})
+                break
+        if replay_case is not None:
+            return
     base = observe(None)
     if base['outcome'] != 'end-of-script' or len(base['indications']) != 4:
         res.violation('baseline-run-failed', 'C03.baseline', 'long stream, one PDU per segment: %s %s, %d '
